@@ -302,6 +302,18 @@ func replay(args []string) {
 					o.Mism = append(o.Mism, Mism{"result:number", v.Rn, xpm.FromFloat(rr.N)})
 				}
 			}
+			// history independence: the same machine run on another data tree and then again on this one
+			// must make the same requests and return the same result as the first time
+			if len(v.Calls) > 0 && rr.Panic == nil {
+				func() {
+					defer func() { recover() }()
+					xpath.NewCtxFromCurrent(context.Background(), m, &xpm.Entry{T: &xpm.Tree{Variant: true}}).Run()
+				}()
+				r3 := runOnce(id, m, 0, false)
+				if r3.Err != rr.Err || r3.B != rr.B || r3.S != rr.S || !xpm.SameFloat(r3.N, rr.N) || !sameCalls(r3.Calls, rr.Calls) {
+					o.Mism = append(o.Mism, Mism{"history", short(rr), short(r3)})
+				}
+			}
 			// C03: every rendering compiles to the same program and gives the same result
 			for vi, vt := range v.Variants {
 				m2, e2, p2 := compile(xpm.ToReal(vt))
